@@ -93,6 +93,22 @@ func VF_C10_Meta() {
 	if n == 2 && vf.Choice("del", 2) == 1 {
 		_, _ = l.Delete(0)
 	}
+	// operations of another replica (whose clock is ahead) received before the export;
+	// optionally an earlier export took place before they arrived
+	switch vf.Choice("remote", 3) {
+	case 1, 2:
+		if vf.Choice("earlier-export", 2) == 1 {
+			_, _, e0 := l.GetMetaAndSnapshot()
+			vf.Assert(e0 == nil, "C10 GetMetaAndSnapshot succeeds")
+		}
+		rRaw, _ := newList(vfBase("k", model.TypeOfDatatype_LIST, "CCCCCCCCCCCCCCCC"), nil, nil)
+		r := rRaw.(*list)
+		for i := 0; i < 5; i++ {
+			_, _ = r.Insert(0, "r")
+		}
+		_, re := l.ReceiveRemoteModelOperations(r.CreatePushPullPack().Operations, false)
+		vf.Assert(re == nil, "C10 remote operations are applied")
+	}
 	meta, snap, err := l.GetMetaAndSnapshot()
 	vf.Assert(err == nil, "C10 GetMetaAndSnapshot succeeds")
 	l2raw, _ := newList(vfBase("other", model.TypeOfDatatype_LIST, "BBBBBBBBBBBBBBBB"), nil, nil)
